@@ -141,7 +141,7 @@ Section K.
   (* --- facts about the answers read back *)
   Lemma sol_cube_good cs sol : consistent sol -> all_sat sol (encode n true (clauses_of cs)) = true ->
     cube_good g (from_partial weighted sol).
-  Proof using Hw.
+  Proof using Hw Hq.
     intros Hc Hs. split.
     - apply (from_partial_nodup weighted sol); [|apply incl_refl|apply Hc].
       intros i Hwi Hct. apply Hw in Hwi. apply is_atom_range in Hwi. fold n in Hwi.
@@ -154,20 +154,20 @@ Section K.
   Qed.
 
   Lemma cubes_good cs : cubes_ok cs -> Forall (cube_good g) cs.
-  Proof using Hw.
+  Proof using Hw Hq.
     induction 1 as [|cs sol Hcs IH Hc Hs]; [constructor|].
     apply Forall_app. split; auto. constructor; [|constructor]. eapply sol_cube_good; eauto.
   Qed.
 
   Lemma cube_good_lit c l : cube_good g c -> In l c -> l <> 0 /\ weighted (Z.abs l) = true /\ 1 <= Z.abs l <= Z.of_nat n.
-  Proof using Hw.
+  Proof using Hw Hq.
     intros [_ H] Hl. specialize (H l Hl). pose proof (is_atom_range _ _ H) as Hr. fold n in Hr.
     split; [lia|]. split; auto. apply Hw; auto.
   Qed.
 
   Lemma sol_exclusive cs sol c : cubes_ok cs -> In c cs -> consistent sol ->
     all_sat sol (encode n true (clauses_of cs)) = true -> exclusive c (from_partial weighted sol).
-  Proof using Hw.
+  Proof using Hw Hq.
     intros Hcs Hc Hcons Hs.
     pose proof (cubes_good cs Hcs) as Hg. rewrite Forall_forall in Hg. specialize (Hg c Hc).
     assert (Hin : In (map cpt (map Z.opp c)) (encode n true (clauses_of cs))).
@@ -185,7 +185,7 @@ Section K.
   Qed.
 
   Lemma cubes_exclusive cs : cubes_ok cs -> pairwise exclusive cs.
-  Proof using Hw.
+  Proof using Hw Hq.
     induction 1 as [|cs sol Hcs IH Hc Hs]; [exact I|].
     apply pairwise_snoc; auto. apply Forall_forall. intros c Hcin. eapply sol_exclusive; eauto.
   Qed.
